@@ -16,7 +16,7 @@ def run(chk):
         if key in seen:
             continue
         seen.add(key)
-        cases.append({"id": "cell-%d" % n, "stage": "typecell", "src": c["srcs"]["canon"], "accept": c["accept"],
+        cases.append({"id": "cell-%d" % n, "stage": "typecell", "src": c["srcs"]["canon"], "accept": c["accept"], "either": c["class"].startswith("deeplitvar"),
                       "out": c["out"], "class": "%s/%s/%s" % (c["ctx"], c["class"], "accept" if c["accept"] else "reject"),
                       "expect": {"accept": c["accept"], "typeof": c["out"]}})
     results = common.replay(cases, name="typecell")
